@@ -38,6 +38,8 @@ OBLIGATIONS = [
     "VgiVerif.C16.C16_exchange",
     "VgiVerif.C16.C16_external",
     "VgiVerif.C16.C16_producer",
+    "VgiVerif.C16.C16_replacement",
+    "VgiVerif.C16.C16_replacement_any",
     "VgiVerif.C16.C16_unary_any",
     "VgiVerif.C16.C16_exchange_any",
     "VgiVerif.C16.C16_producer_any",
@@ -356,7 +358,7 @@ def measure_unary(apps: Apps, sc: dict[str, Any]) -> dict[str, Any]:
     assert len(g) == 1
     empty = len(_ipc(schema, []))
     res_b, _res_md = batches[-1]
-    m = {"pre": empty - EOS + g[0]["logs"], "r": g[0]["data"], "framed": len(_ipc(res_b.schema, [(res_b, None)])),
+    m = {"schema": empty - EOS, "pre": empty - EOS + g[0]["logs"], "r": g[0]["data"], "framed": len(_ipc(res_b.schema, [(res_b, None)])),
          "inline_body": len(r.content)}
     assert m["pre"] + m["r"]["wire"] + EOS == len(r.content), "IPC sizes are not additive"
     # pointer size + cross-check of `framed`: force externalisation, no caps
@@ -390,7 +392,7 @@ def measure_exchange(apps: Apps, sc: dict[str, Any]) -> dict[str, Any]:
     g = _groups(schema, batches)
     assert len(g) == 1
     empty = len(_ipc(schema, []))
-    m = {"pre": empty - EOS, "p": {"logs": g[0]["logs"], "data": g[0]["data"], "framed": g[0]["framed"]},
+    m = {"schema": empty - EOS, "pre": empty - EOS, "p": {"logs": g[0]["logs"], "data": g[0]["data"], "framed": g[0]["framed"]},
          "inline_body": len(r.content), "request": body}
     assert m["pre"] + g[0]["logs"] + g[0]["data"]["wire"] + EOS == len(r.content), "IPC sizes are not additive"
     s2, c2, st2 = apps.get({"wireCap": None, "extCap": None, "storage": "on", "threshold": 0})
@@ -494,15 +496,25 @@ def run_unary_like(ctx: Any, apps: Apps, kind: str, sc: dict[str, Any], m: dict[
                  f"response refused for the external cap ({msg[:90]}) after the storage received {raw} bytes")
     if k == "errMethod":
         _fail(ctx, case, f"C16:{kind}:unexpected-error", f"method error in a scenario that does not raise: {msg[:200]}")
+    # an error response: weigh the EXCEPTION batch (its text varies) and see what rides with it
+    err_wire = 0
+    if k != "ok":
+        err_b, err_md = next((b, md) for b, md in batches if md.get(b"vgi_rpc.log_level") == b"EXCEPTION")
+        err_wire = _wire(schema, err_b, err_md)
+    if k == "errWire":
+        # "an oversize result becomes an RPC error instead": the replacement holds the error batch and nothing of the
+        # discarded body — neither the result nor the log batches that helped to overshoot
+        if len(batches) != 1 or body != m["schema"] + err_wire + EOS:
+            _fail(ctx, case, f"C16:{kind}:replacement-carries-discarded-body",
+                  f"the response replacing an oversize {kind} body holds {len(batches)} batches, {body} bytes "
+                  f"(error batch alone: {m['schema'] + err_wire + EOS}; max_response_bytes={wc})")
     # ---- K (model calls are batched; see `flush`)
-    a: dict[str, Any] = {"cfg": _model_cfg(cfg), "pre": m["pre"], "eos": EOS, "errBody": 0}
+    a: dict[str, Any] = {"cfg": _model_cfg(cfg), "pre": m["pre"], "eos": EOS, "errWire": err_wire}
     if kind == "unary":
-        a.update(r=m["r"], framed=m["framed"], ptr=m["ptr"])
+        a.update(r=m["r"], framed=m["framed"], ptr=m["ptr"], schema=m["schema"])
     else:
         a.update(p=m["p"])
-    got = {"kind": k, "uploads": raw}
-    if k == "ok":
-        got["body"] = body
+    got = {"kind": k, "uploads": raw, "body": body}
     PENDING.append((f"C16.{kind}", a, case, got, f"{kind}: model vs implementation"))
 
 
@@ -607,8 +619,9 @@ SIZES = [0, 1, 7, 8, 63, 64, 100, 255, 256, 1000, 1001, 1500, 4096, 6000]
 
 
 def gen_scenario(rng: Any, kind: str) -> dict[str, Any]:
-    logs = rng.choice([0, 0, 1, 2, 3])
-    logsize = rng.choice([6, 20, 200, 1200])
+    # log volume is a dimension of its own: from none to many / long messages that alone outweigh the payload and the caps
+    logs = rng.choice([0, 0, 1, 2, 3, 3, 8, 20])
+    logsize = rng.choice([6, 20, 200, 1200, 5000])
     if kind in ("unary", "exchange"):
         return {"n": rng.choice(SIZES), "logs": logs, "logsize": logsize}
     k = rng.choice([1, 2, 3, 4, 6])
@@ -619,11 +632,13 @@ def gen_scenario(rng: Any, kind: str) -> dict[str, Any]:
 
 def scenario_configs(rng: Any, kind: str, m: dict[str, Any], n: int) -> list[dict[str, Any]]:
     if kind == "unary":
-        wire = [m["inline_body"], m["ptr_body"]]
+        # … including caps around the log volume alone (schema + logs) and well below it
+        wire = [m["inline_body"], m["ptr_body"], m["pre"], m["pre"] + EOS, max(m["pre"] // 2, 1), 2000]
         ext = [m["framed"]]
         bufs = [m["r"]["buf"]]
     elif kind == "exchange":
-        wire = [m["inline_body"], m["ptr_body"]]
+        wire = [m["inline_body"], m["ptr_body"], m["pre"] + m["p"]["logs"], m["pre"] + m["p"]["logs"] + EOS,
+                max(m["p"]["logs"] // 2, 1), 2000]
         ext = [m["p"]["framed"]]
         bufs = [m["p"]["data"]["buf"]]
     else:
@@ -644,6 +659,16 @@ def scenario_configs(rng: Any, kind: str, m: dict[str, Any], n: int) -> list[dic
 
 
 CORPUS = [
+    # log batches alone outweigh the wire cap: the replacement error response must not bring them back
+    ("exchange", {"n": 10, "logs": 20, "logsize": 5000}, [
+        {"wireCap": 16384, "extCap": None, "storage": "none", "threshold": 0},
+        {"wireCap": 16384, "extCap": 50, "storage": "on", "threshold": 0},
+        {"wireCap": 3000, "extCap": None, "storage": "on", "threshold": 0},
+    ]),
+    ("unary", {"n": 10, "logs": 20, "logsize": 5000}, [
+        {"wireCap": 16384, "extCap": None, "storage": "none", "threshold": 0},
+        {"wireCap": 3000, "extCap": None, "storage": "on", "threshold": 0},
+    ]),
     # the DESIGN §7.1 witness: 1 000-byte unary result (buffer 1 008, framed 1 296), external cap 1 013, threshold 100
     ("unary", {"n": 1000, "logs": 0, "logsize": 6}, [
         {"wireCap": None, "extCap": 1013, "storage": "on", "threshold": 100},
